@@ -63,7 +63,8 @@ def register(p):
 register(Prop(
     'C13', 'Mqtt.Properties.C13', ['ackq'],
     runs=[Run('ackq', quick=60000, thorough=400000, seeds_thorough=8),
-          Run('ackq-sweep', quick=4, thorough=6, seeds_thorough=1, exhaustive=True)],
+          Run('ackq-sweep', quick=4, thorough=6, seeds_thorough=1, exhaustive=True),
+          Run('ackq-sweep-ping', quick=5, thorough=7, seeds_thorough=1, exhaustive=True)],
     oracle=ackq_oracle, nontrivial=ackq_nontrivial,
     assumptions=[
         "Go semantics assumed by the model: slices/copy/append, map as finite function, sync.Mutex makes each exported method atomic",
